@@ -14,12 +14,12 @@ func init() {
 	register(&propertyDef{
 		id:    "C01",
 		title: "every run terminates with one output or an error",
-		rules: []ruleFunc{c01R1, c01R2, c01R3, c01R4, c01R5, c01R6, c01R7, c01R8, c01R9},
+		rules: []ruleFunc{c01R1, c01R2, c01R3, c01R4, c01R5, c01R6, c01R7, c01R8, c01R9, c01R10, c01R11},
 		decided: "the deadlock-freedom and single-hand-over disciplines termination depends on: single guarded send of the workflow output under the run lock (R1); " +
 			"no blocking channel operation, Wait or Sleep while the run lock or a step lock is held, error reports non-blocking (R2); lock order run-lock -> step-lock only, " +
 			"no handler callback under a step lock, no Close/Wait under a lock (R3); Execute registers the terminate-all teardown on every path after the first step start (R4); " +
 			"every DAG resolution is followed by a notification, a cancel or an error return (R5); the no-more-outputs error is raised and cancels (R6); " +
-			"every wait in Execute has a context or timer case (R7); every function releases the locks it takes on every return (R8); a step that blocks waiting for input announced `waiting_for_input` with its last stage notification, so the event-driven deadlock detection runs after the step became idle (R9).",
+			"every wait in Execute has a context or timer case (R7); every function releases the locks it takes on every return (R8); a step that blocks waiting for input announced `waiting_for_input` with its last stage notification, so the event-driven deadlock detection runs after the step became idle (R9). No step goroutine waits on its own WaitGroup (R10 = C12.R14); every return of Execute without an output carries a provably non-nil error (R11 = C03.R4).",
 		notDecided: "liveness itself (that goroutines make the progress the disciplines allow), promptness, anything inside dgraph or the deployers.",
 	})
 }
@@ -1021,4 +1021,9 @@ func (c *Ctx) cancelsRun(in ssa.Instruction) bool {
 		}
 	}
 	return true
+}
+
+// C01.R11 = C03.R4: Execute returns an output or an error, never neither.
+func c01R11(c *Ctx) {
+	shareRule(c, "C03.R4", "C01.R11", c03R4, "over Execute and handleOutput there is exactly one success return, and every other return carries a provably non-nil error: a run never ends with neither an output nor an error")
 }
